@@ -29,6 +29,7 @@ EXTRACTION_DROPS = [
     'exception propagation (throw = ghost flag + return; no catch in the code under contract)',
     'name lookup / overload resolution / implicit conversions (taken from clang, emitted as explicit casts/calls)',
     'ABI layout (same field order and types, proofs do not depend on padding)',
+    'range-for over a built-in array of known bound is emitted as an index loop over the same iteration space',
     'sub-expressions that create temporaries are hoisted in front of their full-expression (evaluation order '
     'inside one full-expression is otherwise kept)',
 ]
